@@ -683,6 +683,16 @@ where
 			return Err(Error::TransactionWasCancelled(ret_slate.id.to_string()));
 		}
 	}
+	// A transaction stored under this id without a context is one this wallet has already
+	// completed (an invoice it issued and finalized): an invoice arriving under that id is
+	// not that transaction, and paying it would write its stored transaction over the
+	// finished one's, which is kept under the slate id.
+	if w.get_private_context(keychain_mask, slate.id.as_bytes())
+		.is_err()
+		&& matches!(w.get_stored_tx(&slate.id.to_string()), Ok(Some(_)))
+	{
+		return Err(Error::TransactionAlreadyReceived(ret_slate.id.to_string()));
+	}
 
 	let height = w.w2n_client().get_chain_tip()?.0;
 
